@@ -10,7 +10,7 @@
    detector (both tiers are built with -race).  Data-race freedom itself is observed, not
    proved.  The *_refuted / *_necessary theorems show that the hypothesis cannot be dropped:
    the system in which a run writes one shared cell is exactly defect F-C09. *)
-From Eino Require Import Base.Util Model.Isolation Model.IsolationEngine Proofs.Isolation Proofs.IsolationDriver Proofs.IsolationEngine Proofs.IsolationEngineRec Proofs.IsolationSlice Proofs.IsolationCtx.
+From Eino Require Import Base.Util Model.Isolation Model.IsolationEngine Proofs.Isolation Proofs.IsolationDriver Proofs.IsolationEngine Proofs.IsolationEngineRec Proofs.IsolationSlice Proofs.IsolationCtx Proofs.IsolationCancel Model.IsolationPool Proofs.IsolationPool.
 
 (* ---- core: runs_non_interfering (system of the property: the record is immutable) ---- *)
 
@@ -153,6 +153,89 @@ Theorem engine_any_predecessor_terminates :
   forall (c : cobj), g_dag (co_graph c) = false -> forall k, erun c (S (rs_max (einit c k))) k <> None.
 Proof. exact engine_pregel_terminates. Qed.
 Print Assumptions engine_any_predecessor_terminates.
+
+(* clause "runs do not share … callback context" (round 4): the context of a call is the call's
+   own.  The moment at which run i finds its context cancelled (checked at the top of every
+   iteration of the main loop, compose/graph_run.go:273) is the one call i brought, at every moment
+   of every interleaving — whatever the other runs do: cancel their own contexts, fail, return *)
+Theorem engine_call_context_fixed :
+  forall (c : cobj) (ks : list call) sched c' rs',
+    grun (lift estep) sched (c, map (einit c) ks) = Some (c', rs') ->
+    forall i k r', nth_error ks i = Some k -> nth_error rs' i = Some r' ->
+      rs_cancel r' = rs_cancel (einit c k).
+Proof. exact engine_context_fixed. Qed.
+Print Assumptions engine_call_context_fixed.
+
+(* a call whose own context is cancelled during its superstep n-1 has returned after n+1
+   supersteps — any compiled object, ANY trigger mode (all-predecessor graphs and workflows have
+   no step limit): for such calls the fuel of the solo prediction is never the reason for an answer *)
+Theorem engine_cancelled_call_terminates :
+  forall (c : cobj) k n, ca_cancel k = Some n -> erun c (S n) k <> None.
+Proof. exact engine_cancelled_call_returns. Qed.
+Print Assumptions engine_cancelled_call_terminates.
+
+(* non-vacuity: three calls of the zoo's pregel shape interleaved superstep by superstep, the middle
+   one cancels its own context in its first superstep: it returns the error of the cancelled
+   context, the other two are the calls they are alone *)
+Example engine_cancelled_call_interleaved :
+  exists rs', grun (lift estep) [0; 1; 2; 1; 0; 2; 0; 2; 0; 2; 0; 2; 0; 2]%nat
+                   (ex_obj, map (einit ex_obj) [ex_call1; ex_call_cancelled; ex_call3]) = Some (ex_obj, rs') /\
+    all_final (lift estep) (ex_obj, rs') = true /\
+    map (fun r => option_map fst (eobs false r)) rs' =
+      [Some "ok:V{<tSELF> n=2 lim=2 h=({p0=V{<tSELF> n=2 lim=2 h=in2>a[o=d0]>w>w>f>p0}})>j}"%string;
+       Some "err:other"%string; Some "err:maxsteps"%string] /\
+    map rs_cancel rs' = [None; Some 1%nat; None] /\
+    erun ex_obj 2 ex_call_cancelled = Some ("err:other"%string, ["n:a"%string]).
+Proof. exact ex_cancel_interleaved. Qed.
+
+
+(* ---- a per-run object recycled across runs + a run that returns while one of its tasks is
+   still executing (round 4; seeded change C09-taskmanager-pool-recycled, own mutant N30) ---- *)
+
+(* task managers drawn from a pool and put back when the run returns: run 0 faults and returns
+   while its task (output 7) is still running, run 1 is healthy (output 1); under the schedule
+   0,0,1,0,1,1 run 1 draws the recycled manager, the abandoned task of run 0 completes into it, and
+   run 1 returns 7 — alone it returns 1 *)
+Theorem recycled_manager_refuted :
+  exists g',
+    grun pstep_pool pool_sched (pstore0, [pinit 7 true; pinit 1 false]) = Some g' /\
+    all_final pstep_pool g' = true /\
+    exists r1' s rs,
+      nth_error (snd g') 1 = Some r1' /\
+      solo_run pstep_pool 3 pstore0 (pinit 1 false) = Some (s, rs) /\
+      p_ret rs = Some (Some 1%N) /\ p_ret r1' = Some (Some 7%N).
+Proof. exact pool_late_completion_is_delivered_to_another_run. Qed.
+Print Assumptions recycled_manager_refuted.
+
+(* … and the two calls need not overlap: the faulted call has returned to its caller before the
+   healthy call makes its first step (why the check has a SEQUENTIAL fault scenario) *)
+Theorem recycled_manager_needs_no_overlap :
+  exists g1, grun pstep_pool (firstn 2 pool_sched) (pstore0, [pinit 7 true; pinit 1 false]) = Some g1 /\
+             (exists r0, nth_error (snd g1) 0 = Some r0 /\ p_ret r0 = Some None) /\
+             (exists r1, nth_error (snd g1) 1 = Some r1 /\ p_pc r1 = 0%N).
+Proof. exact pool_no_overlap_needed. Qed.
+Print Assumptions recycled_manager_needs_no_overlap.
+
+(* the code as it is (`&taskManager{…}` per run: gen_managers_fresh_or_linked reads that off the
+   source): any number of runs, faulted and healthy, ANY interleaving — the store is never written,
+   and a run that has made its three steps has returned what it returns alone: a healthy run its
+   own task's output, whatever abandoned tasks complete in the meantime (their completion lands in
+   the mailbox of the run that abandoned them) *)
+Theorem fresh_manager_late_completion_goes_nowhere :
+  forall sched g g',
+    grun pstep_fresh sched g = Some g' ->
+    fst g' = fst g /\
+    forall i v fault, nth_error (snd g) i = Some (pinit v fault) -> count i sched = 3%nat ->
+      exists r', nth_error (snd g') i = Some r' /\
+                 p_ret r' = Some (if fault then None else Some v) /\ p_own r' = [v].
+Proof. exact fresh_managers_isolated. Qed.
+Print Assumptions fresh_manager_late_completion_goes_nowhere.
+
+(* non-vacuity: the schedule that breaks the pooled variant is a schedule of the code as it is *)
+Example fresh_manager_same_schedule :
+  exists g', grun pstep_fresh pool_sched (pstore0, [pinit 7 true; pinit 1 false]) = Some g' /\
+             map p_ret (snd g') = [Some None; Some (Some 1%N)].
+Proof. exact fresh_same_schedule. Qed.
 
 (* ---- the general system: steps MAY write a shared store ---- *)
 
